@@ -70,6 +70,9 @@ func (e *Ev) mapStore(l *Loc, v Term, n ast.Node) {
 	e.panicIf(smtEq(l.Ref, "0"), "assignment to entry in nil map", n)
 	v = e.toType(v, l.T, n)
 	has := app("select", app("select", dom, l.Ref), l.Idx)
+	// card is the size of dom: never negative, at least one when some key is present
+	e.st.assume(app(">=", app("select", card, l.Ref), "0"))
+	e.st.assume(smtImp(has, app(">=", app("select", card, l.Ref), "1")))
 	e.setHeap(l.Name+"$card", app("store", card, l.Ref, smtIte(has, app("select", card, l.Ref), app("+", app("select", card, l.Ref), "1"))), "(Array Int Int)")
 	e.setHeap(l.Name+"$dom", app("store", dom, l.Ref, app("store", app("select", dom, l.Ref), l.Idx, "true")), fmt.Sprintf("(Array Int (Array %s Bool))", ks))
 	e.setHeap(l.Name+"$val", app("store", val, l.Ref, app("store", app("select", val, l.Ref), l.Idx, v.S)), fmt.Sprintf("(Array Int (Array %s %s))", ks, vs))
@@ -94,6 +97,8 @@ func (e *Ev) mapCard(m Term, mt *types.Map) string {
 	// a map never has a negative number of entries; the nil map has none
 	e.st.assume(app(">=", c, "0"))
 	e.st.assume(smtEq(app("select", card, "0"), "0"))
+	dom, _, _ := e.mapHeaps(base, ks, vs)
+	e.st.assume(fmt.Sprintf("(forall ((k %s)) (! (=> (select (select %s %s) k) (>= %s 1)) :pattern ((select (select %s %s) k))))", ks, dom, m.S, c, dom, m.S))
 	return c
 }
 
